@@ -8,6 +8,8 @@ mod server;
 mod tx;
 
 fn main() {
+    // a panic inside zlink is an observation of the case that triggered it, not a harness failure
+    std::panic::set_hook(Box::new(|_| {}));
     let args: Vec<String> = std::env::args().collect();
     let scenario = args.get(1).cloned().unwrap_or_default();
     let mut o = common::Opts { tier: "quick".into(), seed: 1, only: None, index: None, limit: 64 * 1024 };
